@@ -23,6 +23,88 @@ func c09(r *core.Report) {
 	c09Backtrack(r)
 	c09Stable(r)
 	c09VarNames(r)
+	c09EveryServer(r)
+}
+
+// c09EveryServer: the mux router answers for every server the document declares.
+func c09EveryServer(r *core.Report) {
+	p := r.Prog
+	pk := p.Pkg("routers/gorillamux")
+	info := pk.TypesInfo
+	r.RunRule("C09.everyserver", "every declared server gets its routes: in gorillamux.makeServers each round of the loop over the declared servers ends (at a `continue` or at the end of the body) right after an append of the decomposed server to the list that is returned, or returns an error — a round that can end without the append (a de-duplication, a filter) leaves a declared server without routes, and the requests the document says it serves are answered `no matching operation`", 2, func() {
+		fd := p.DeclOf("routers/gorillamux", "makeServers")
+		var loop *ast.RangeStmt
+		ast.Inspect(fd.Body, func(nd ast.Node) bool {
+			if rs, ok := nd.(*ast.RangeStmt); ok && loop == nil {
+				if id, ok := ast.Unparen(rs.X).(*ast.Ident); ok {
+					if _, isParam := info.ObjectOf(id).(*types.Var); isParam && core.ParamObj(info, fd, id.Name) == info.ObjectOf(id) {
+						loop = rs
+					}
+				}
+			}
+			return true
+		})
+		if loop == nil {
+			core.Fail("makeServers: no loop over its parameter")
+		}
+		// the returned list
+		var result types.Object
+		ast.Inspect(fd.Body, func(nd ast.Node) bool {
+			if ret, ok := nd.(*ast.ReturnStmt); ok && len(ret.Results) == 2 {
+				if id, ok := ast.Unparen(ret.Results[0]).(*ast.Ident); ok && core.IsNil(info, ret.Results[1]) {
+					result = info.ObjectOf(id)
+				}
+			}
+			return true
+		})
+		if result == nil {
+			core.Fail("makeServers: no `return list, nil`")
+		}
+		isAppend := func(st ast.Stmt) bool {
+			as, ok := st.(*ast.AssignStmt)
+			if !ok || len(as.Lhs) != 1 || len(as.Rhs) != 1 {
+				return false
+			}
+			lid, ok := ast.Unparen(as.Lhs[0]).(*ast.Ident)
+			if !ok || info.ObjectOf(lid) != result {
+				return false
+			}
+			c, ok := ast.Unparen(as.Rhs[0]).(*ast.CallExpr)
+			if !ok || len(c.Args) < 2 {
+				return false
+			}
+			fid, ok := ast.Unparen(c.Fun).(*ast.Ident)
+			if !ok || fid.Name != "append" {
+				return false
+			}
+			aid, ok := ast.Unparen(c.Args[0]).(*ast.Ident)
+			return ok && info.ObjectOf(aid) == result
+		}
+		k := 0
+		check := func(blk *ast.BlockStmt, idx int, pos token.Pos, what string) {
+			k++
+			key := fmt.Sprintf("everyserver:exit#%d", k)
+			good := idx > 0 && isAppend(blk.List[idx-1])
+			r.Check(good, key, p.Pos(pos), "the round ends right after the append", "a round of the loop over the declared servers ends ("+what+") without the server having been appended to the returned list by the statement before: that server gets no routes")
+		}
+		// every continue of this loop
+		ast.Inspect(loop.Body, func(nd ast.Node) bool {
+			switch x := nd.(type) {
+			case *ast.FuncLit:
+				return false
+			case *ast.RangeStmt, *ast.ForStmt:
+				return nd == ast.Node(loop.Body)
+			case *ast.BlockStmt:
+				for i, st := range x.List {
+					if br, ok := st.(*ast.BranchStmt); ok && br.Tok == token.CONTINUE {
+						check(x, i, br.Pos(), "continue")
+					}
+				}
+			}
+			return true
+		})
+		check(loop.Body, len(loop.Body.List), loop.Body.End(), "end of the loop body")
+	})
 }
 
 // methodConstAndFields: the http.Method* constants and the *Operation fields of PathItem mentioned in a node.
